@@ -254,6 +254,17 @@ def exact_oracle(ctx):
             if negative_or_small_modulus(spec, kw):
                 return None
             return Failure("C05/sizeof-bad-value/%s" % fk, "sizeof(%s) returned %r | spec=%s" % (kw, o, short(spec, 500)))
+        # metamorphic: keywords live in _params only; one that merely shares the name of a member must not change the answer
+        names = [nm for s_ in G.walk(spec) if s_[0] in ("struct", "seq") for nm, _ in s_[1] if nm]
+        if names:
+            shadow = dict(kw)
+            for nm in names[:3]:
+                if nm not in shadow:
+                    shadow[nm] = 3
+            k2, o2 = sizeof_outcome(con, shadow)
+            if k2 != kind or (kind == "int" and o2.value != o.value):
+                return Failure("C05/sizeof-keyword-shadows-member/%s" % fk, "sizeof(%s) -> %r but with keywords named like members (%s) -> %r | spec=%s" % (
+                    kw, o, sorted(set(shadow) - set(kw)), o2, short(spec, 500)))
         if kind != "int" or withheld:
             return None
         n = o.value
@@ -288,7 +299,7 @@ def exact_cases(draw):
     sized = draw(st.booleans())
     spec, params, value = draw(V.cases(frag=FRAG - ({"gbytes", "gstr", "grange", "optional", "nullterm", "varint", "zigzag", "cstr", "pascal",
                                                       "parray", "select", "runtil", "terminated", "stopif", "prefixed"} if sized else set()),
-                                       depth=3, tail=not sized))
+                                       depth=3, tail=not sized, rootrefs=True))
     withheld = draw(st.lists(st.sampled_from(sorted(params)), unique=True, max_size=len(params))) if params and draw(st.booleans()) else []
     return [spec, params, value, withheld, draw(st.binary(max_size=4))]
 
